@@ -225,13 +225,11 @@ func (l *LSTM) Apply(inputs []tensor.Tensor) ([]tensor.Tensor, error) {
 		return nil, err
 	}
 
-	outputMap := map[string]tensor.Tensor{
-		"Y": Y, "Y_h": Yh, "Y_c": Yc,
-	}
-
-	result := []tensor.Tensor{}
-	for _, outputName := range l.outputs {
-		result = append(result, outputMap[outputName])
+	// Outputs are bound to the node's output names by position; trailing outputs
+	// the node does not list are not returned.
+	result := []tensor.Tensor{Y, Yh, Yc}
+	if len(l.outputs) < len(result) {
+		result = result[:len(l.outputs)]
 	}
 
 	return result, nil
